@@ -52,14 +52,16 @@ def _tree_files(root, exts):
     return out
 
 
-def input_digest(ndebug):
+def input_digest(ndebug, repo=None):
+    repo = repo or REPO
     h = hashlib.sha256()
     h.update(FACTS_VERSION.encode())
+    h.update(repo.encode())
     h.update(b"ndebug" if ndebug else b"assert")
     files = []
     for sub in ("src", "include", "cmake"):
-        files += _tree_files(os.path.join(REPO, sub), (".c", ".cpp", ".h", ".hh", ".hpp", ".in", ".cmake", ".txt"))
-    files.append(os.path.join(REPO, "CMakeLists.txt"))
+        files += _tree_files(os.path.join(repo, sub), (".c", ".cpp", ".h", ".hh", ".hpp", ".in", ".cmake", ".txt"))
+    files.append(os.path.join(repo, "CMakeLists.txt"))
     files += _tree_files(WITNESS_DIR, (".cpp", ".c", ".h"))
     files.append(PLUGIN_SRC)
     files.append(os.path.abspath(__file__))
@@ -72,11 +74,11 @@ def input_digest(ndebug):
     return h.hexdigest()[:24]
 
 
-def _compile_db(scratch):
+def _compile_db(scratch, repo):
     """Returns list of dicts {file, lang, args(list, without compiler/-o/-c/file)}."""
     cdb = os.path.join(scratch, "cdb")
     r = subprocess.run(
-        ["cmake", "-S", REPO, "-B", cdb, "-G", "Ninja", "-DCMAKE_BUILD_TYPE=RelWithDebInfo",
+        ["cmake", "-S", repo, "-B", cdb, "-G", "Ninja", "-DCMAKE_BUILD_TYPE=RelWithDebInfo",
          "-DCMAKE_EXPORT_COMPILE_COMMANDS=ON"], capture_output=True, text=True)
     path = os.path.join(cdb, "compile_commands.json")
     if r.returncode != 0 or not os.path.exists(path):
@@ -118,7 +120,7 @@ def unit_name(path):
     return b
 
 
-def _run_unit(u, outdir, ndebug):
+def _run_unit(u, outdir, ndebug, repo):
     cc = "clang++" if u["lang"] == "c++" else "clang"
     args = list(u["args"])
     if not ndebug:
@@ -126,7 +128,7 @@ def _run_unit(u, outdir, ndebug):
     name = unit_name(u["file"])
     ast_out = os.path.join(outdir, "ast", name + ".json")
     ir_out = os.path.join(outdir, "ir", name + ".ll")
-    prefixes = [REPO.rstrip("/") + "/", WITNESS_DIR.rstrip("/") + "/"]
+    prefixes = [repo.rstrip("/") + "/", WITNESS_DIR.rstrip("/") + "/"]
     if u.get("generated"):
         prefixes.append(os.path.dirname(u["file"]) + "/")
     pa = []
@@ -186,10 +188,11 @@ class Facts:
         return self._ir[name]
 
 
-def extract(ndebug=True, verbose=False):
+def extract(ndebug=True, verbose=False, repo=None):
     """Build (or fetch from the digest-keyed cache) the facts for REPO's working tree."""
+    repo = repo or REPO
     ensure_plugin()
-    dig = input_digest(ndebug)
+    dig = input_digest(ndebug, repo)
     dest = os.path.join(CACHE, "facts-" + dig)
     meta_path = os.path.join(dest, "meta.json")
     if os.path.exists(meta_path):
@@ -199,13 +202,13 @@ def extract(ndebug=True, verbose=False):
     t0 = time.time()
     scratch = tempfile.mkdtemp(prefix="rtosc-facts-", dir=os.environ.get("TMPDIR", "/tmp"))
     try:
-        units = _compile_db(scratch)
+        units = _compile_db(scratch, repo)
         # generated version.c lives in the scratch dir: copy beside the outputs
         os.makedirs(os.path.join(scratch, "out", "ast"))
         os.makedirs(os.path.join(scratch, "out", "ir"))
         os.makedirs(os.path.join(scratch, "out", "gen"))
         for u in units:
-            if not u["file"].startswith(REPO.rstrip("/") + "/"):
+            if not u["file"].startswith(repo.rstrip("/") + "/"):
                 g = os.path.join(scratch, "out", "gen", os.path.basename(u["file"]))
                 shutil.copy(u["file"], g)
                 u["file"] = g
@@ -216,10 +219,10 @@ def extract(ndebug=True, verbose=False):
                 units.append({"file": os.path.join(WITNESS_DIR, w), "lang": "c++",
                               "args": list(cpp_args) + ["-I" + WITNESS_DIR], "target": "witness", "witness": True})
         with ThreadPoolExecutor(max_workers=16) as ex:
-            errs = [e for e in ex.map(lambda u: _run_unit(u, os.path.join(scratch, "out"), ndebug), units) if e]
+            errs = [e for e in ex.map(lambda u: _run_unit(u, os.path.join(scratch, "out"), ndebug, repo), units) if e]
         if errs:
             raise AnalysisBroken("unit(s) failed to parse/compile:\n" + "\n".join("%s: %s" % e for e in errs))
-        meta = {"digest": dig, "ndebug": ndebug, "repo": REPO,
+        meta = {"digest": dig, "ndebug": ndebug, "repo": repo,
                 "units": [{"file": (u["file"] if not u.get("generated") else "<build>/cpp/" + os.path.basename(u["file"])),
                            "lang": u["lang"], "args": u["args"], "target": u["target"],
                            "witness": bool(u.get("witness"))} for u in units],
@@ -241,7 +244,7 @@ def extract(ndebug=True, verbose=False):
         shutil.rmtree(scratch, ignore_errors=True)
 
 
-def _prune_cache(keep, maxn=4):
+def _prune_cache(keep, maxn=6):
     try:
         ents = [os.path.join(CACHE, e) for e in os.listdir(CACHE) if e.startswith("facts-")]
         ents.sort(key=lambda p: os.path.getmtime(p), reverse=True)
